@@ -69,7 +69,11 @@ pub fn run(tier: Tier) -> ! {
     // direct field (atomics, cells, locks); if so the sampling effort is raised 40x.
     let freeze = probe_freeze();
     chk.set("predictor_has_no_direct_interior_mutability", json!(freeze));
-    let effort = if freeze == Some(false) { 40 } else { 1 };
+    // a second probe: writable, process-wide statics defined by the vaporetto crate itself (static mut,
+    // statics with interior mutability) in the object code just built; thread-locals are not shared
+    let statics = probe_shared_statics();
+    chk.set("shared_writable_statics_in_vaporetto", json!(statics));
+    let effort = if freeze == Some(false) || statics.as_ref().map_or(false, |v| !v.is_empty()) { 40 } else { 1 };
     let cs = crate::sched::cold_start(&chk, tier.pick(200, 2000) * effort, 8);
     chk.set("cold_start_observations_compared", json!(cs));
     let fr = crate::sched::free_run(&w, &chk, tier.pick(100, 1000) * effort);
@@ -139,4 +143,37 @@ fn probe_freeze() -> Option<bool> {
         return None;
     }
     Some(s.contains("predictor_freeze=true"))
+}
+
+
+/// Names of writable non-thread-local statics (.data.* / .bss.* objects) that belong to the
+/// vaporetto crate in the most recently built rlib. None when objdump is not available.
+fn probe_shared_statics() -> Option<Vec<String>> {
+    let dir = std::fs::read_dir("/verif/target/release/deps").ok()?;
+    let mut libs: Vec<(std::time::SystemTime, std::path::PathBuf)> = dir
+        .filter_map(|e| e.ok())
+        .filter(|e| {
+            let n = e.file_name().to_string_lossy().to_string();
+            n.starts_with("libvaporetto-") && n.ends_with(".rlib")
+        })
+        .filter_map(|e| Some((e.metadata().ok()?.modified().ok()?, e.path())))
+        .collect();
+    libs.sort();
+    let newest = libs.pop()?.1;
+    let out = std::process::Command::new("objdump").args(["-t", "-C"]).arg(&newest).output().ok()?;
+    if !out.status.success() {
+        return None;
+    }
+    let mut names = vec![];
+    for l in String::from_utf8_lossy(&out.stdout).lines() {
+        let Some((_, rest)) = l.split_once(" O ") else { continue };
+        let sect = rest.split_whitespace().next().unwrap_or("");
+        let writable = (sect.starts_with(".data") && !sect.starts_with(".data.rel.ro")) || sect.starts_with(".bss");
+        if writable && rest.contains("vaporetto::") {
+            names.push(rest.split_whitespace().skip(2).collect::<Vec<_>>().join(" "));
+        }
+    }
+    names.sort();
+    names.dedup();
+    Some(names)
 }
